@@ -783,6 +783,16 @@ func raiseOnly(ct *rlwe.Ciphertext, pt *rlwe.Plaintext) {
 	}
 }
 
+// PEEKSIZE control: the length comes from the stream
+func readBlock(r *bufio.Reader, size int) ([]byte, error) {
+	b, err := r.Peek(size)
+	if err != nil {
+		return nil, err
+	}
+	_, err = r.Discard(size)
+	return b, err
+}
+
 // ERRSTORE control: the failed product stays in the cache
 type powCache struct{ vals map[int]*big.Int }
 
